@@ -111,6 +111,7 @@ type Exec struct {
 	nameCount   map[string]int
 	recDone     map[*Term]bool
 	noOblige    int
+	pure        int // > 0 while a Go function is evaluated inside a specification
 	modAllCount int
 	recDry      int
 	borrowed    map[*Term]string // array ids / refs owned by the caller
@@ -1303,7 +1304,12 @@ func (ex *Exec) nilCheck(fr *Frame, st *State, p Val, pos token.Pos, what ssa.Va
 	if ex.opts.CheckNil {
 		ex.oblige(fr, st, "safety", "safety:nil["+what.Name()+":"+ex.srcAt(pos)+"]", pos, ex.srcAt(pos), nz)
 	}
-	// after the dereference the pointer is known non-nil
+	// after the dereference the pointer is known non-nil - on the program's own paths only. A Go function evaluated
+	// inside a specification (pureCall) has no path condition of its own: assuming here would state "non-nil"
+	// unconditionally, although the call may sit under an antecedent (`err == nil ==> h.MarshalSize() <= n`).
+	if ex.pure > 0 {
+		return
+	}
 	ex.assume(st, nz)
 }
 
